@@ -295,6 +295,8 @@ impl Explorer {
         let mut work: Vec<Item> = Vec::new();
         let mut seen_flips: std::collections::HashSet<u64> = std::collections::HashSet::new();
         let mut seen_classes: std::collections::HashSet<u64> = std::collections::HashSet::new();
+        let mut siblings: std::collections::HashMap<u64, Vec<crate::ctx::Atom>> = std::collections::HashMap::new();
+        let mut pinned_seen: std::collections::HashMap<Var, Vec<BigInt>> = std::collections::HashMap::new();
         let mut open_branches = 0usize; // flips whose feasibility the solver could not decide
         let mut divergences = 0usize;
         // first input: any point of Bounds ∧ Pre
@@ -426,10 +428,31 @@ impl Explorer {
                     }
                 }
                 if i >= bound {
-                    let key = hash_flip(&rec.pc, i);
+                    // all outcomes seen so far at this position under this exact prefix (binary tests: the atom and,
+                    // later, its negation; multiway tests / concretisations: one atom per explored value)
+                    let ph = hash_atoms(&rec.pc, i);
+                    let sib = siblings.entry(ph).or_default();
+                    if !sib.contains(atom) {
+                        sib.push(atom.clone());
+                    }
+                    let key = {
+                        use std::hash::{Hash, Hasher};
+                        let mut hh = std::collections::hash_map::DefaultHasher::new();
+                        ph.hash(&mut hh);
+                        let mut ss: Vec<&crate::ctx::Atom> = sib.iter().collect();
+                        ss.sort();
+                        for a in ss {
+                            a.hash(&mut hh);
+                        }
+                        hh.finish()
+                    };
                     if seen_flips.insert(key) {
                         z.push();
-                        z.assert(&atom.negated().smt(&nm));
+                        for a in sib.iter() {
+                            // siblings may mention auxiliaries of this run only if they were created before position i,
+                            // which holds because the prefix (hence the sequence of operations) is identical
+                            z.assert(&a.negated().smt(&nm));
+                        }
                         match z.check_model(&input_names) {
                             (Answer::Unsat, _) => {}
                             (Answer::Unknown(_), _) => open_branches += 1,
@@ -437,12 +460,52 @@ impl Explorer {
                                 Some(m) => {
                                     let mut exp: Vec<crate::ctx::Atom> = rec.pc[..i].to_vec();
                                     exp.push(atom.negated());
-                                    work.push(Item { model: input_names.iter().map(|n| m.get(n).cloned().unwrap_or_else(BigInt::zero)).collect(), bound: i + 1, expected: exp });
+                                    // bound = i: the child re-examines position i with the enlarged sibling set
+                                    work.push(Item { model: input_names.iter().map(|n| m.get(n).cloned().unwrap_or_else(BigInt::zero)).collect(), bound: i, expected: exp });
                                 }
                                 None => res.errors.push("could not read model".into()),
                             },
                         }
                         z.pop();
+                    }
+                    // concretisation of an input (v == value): control flow above it may be nondeterministic (hash order),
+                    // so the prefix-keyed sibling set can miss values; additionally ask for a value of v never pinned so far
+                    if atom.rel == crate::ctx::Rel::Eq {
+                        if let Some((v, val)) = atom.p.pins() {
+                            if (v as usize) < specs.len() {
+                                let seen = pinned_seen.entry(v).or_default();
+                                if !seen.contains(&val) {
+                                    seen.push(val);
+                                }
+                                let key2 = {
+                                    use std::hash::{Hash, Hasher};
+                                    let mut hh = std::collections::hash_map::DefaultHasher::new();
+                                    (0x9e37u64, ph, v).hash(&mut hh);
+                                    let mut ss = seen.clone();
+                                    ss.sort();
+                                    ss.hash(&mut hh);
+                                    hh.finish()
+                                };
+                                if seen_flips.insert(key2) {
+                                    z.push();
+                                    for val in seen.iter() {
+                                        z.assert(&format!("(distinct {} {})", specs[v as usize].name, smt_big(val)));
+                                    }
+                                    match z.check_model(&input_names) {
+                                        (Answer::Unsat, _) => {}
+                                        (Answer::Unknown(_), _) => open_branches += 1,
+                                        (Answer::Sat, m) => {
+                                            if let Some(m) = m {
+                                                let mut exp: Vec<crate::ctx::Atom> = rec.pc[..i].to_vec();
+                                                exp.push(atom.negated());
+                                                work.push(Item { model: input_names.iter().map(|n| m.get(n).cloned().unwrap_or_else(BigInt::zero)).collect(), bound: i, expected: exp });
+                                            }
+                                        }
+                                    }
+                                    z.pop();
+                                }
+                            }
+                        }
                     }
                 }
                 z.assert(&atom.smt(&nm));
@@ -536,6 +599,7 @@ impl Explorer {
                     "path_condition": rec.pc.iter().take(12).map(|a| a.pretty(&nm)).collect::<Vec<_>>(),
                     "pc_len": rec.pc.len(), "aux_vars": rec.defs.len(), "obligations": rec.obligations.len(),
                     "open_obligations": open.iter().take(4).map(|o| format!("{}: {}", o.0, trunc(&o.1.pretty(&nm), 160))).collect::<Vec<_>>(),
+                    "closed_obligations": rec.obligations.iter().filter(|o| o.1 == Formula::True).take(4).map(|o| trunc(&o.0, 160)).collect::<Vec<_>>(),
                     "status": class_status, "steps": rec.steps,
                 }));
             }
@@ -603,6 +667,15 @@ fn hash_flip(pc: &[crate::ctx::Atom], i: usize) -> u64 {
     pc[i].negated().hash(&mut h);
     0xf11bu64.hash(&mut h);
     h.finish()
+}
+
+fn smt_big(n: &BigInt) -> String {
+    use num_traits::Signed;
+    if n.is_negative() {
+        format!("(- {})", -n)
+    } else {
+        n.to_string()
+    }
 }
 
 fn smt_int(n: i64) -> String {
